@@ -131,7 +131,8 @@ def writer_events(w):
            "flg": flg, "bd": bd, "csize": csize}]
     if w.get("hung"):
         ev.append({"ev": "wend", "case": w["case"], "seg": 1, "status": "hung", "same": False, "blocks": [], "contentLen": 0,
-                   "consumed": 0, "segLen": 0, "flg": 0, "bd": 0, "csize": [], "clean": False})
+                   "consumed": 0, "segLen": 0, "flg": 0, "bd": 0, "csize": [], "clean": False, "sinkIsPrefix": True,
+                   "injected": False, "closecalled": False})
         return ev
     prev_calls, prev_sink = 0, 0
     for i, c in enumerate(w["calls"]):
@@ -144,7 +145,9 @@ def writer_events(w):
     for k, f in enumerate(w["frames"]):
         ev.append({"ev": "wend", "case": w["case"], "seg": k + 1, "status": f["status"], "same": f["same"],
                    "blocks": [b["dec"] for b in f["blocks"]], "contentLen": f["contentLen"], "consumed": f["consumed"],
-                   "segLen": f["segLen"], "flg": f["flg"], "bd": f["bd"], "csize": f["csize"], "clean": w["panicked"] == ""})
+                   "segLen": f["segLen"], "flg": f["flg"], "bd": f["bd"], "csize": f["csize"], "clean": w["panicked"] == "",
+                   "sinkIsPrefix": w.get("sinkIsPrefix", True), "injected": w.get("injected", False),
+                   "closecalled": any(c["op"] == "close" for c in w["calls"])})
     return ev
 
 
